@@ -30,6 +30,8 @@ def tla_set(names):
 
 def corrupt(case, rnd):
     """Corrupt the prediction for the last run: a compared chunk value, or the exit status."""
+    if any(r['kind'] == 'p_io' for r in case['runs'][:-1]):
+        return None   # may be skipped by the replayer (a known finding can make an earlier run deviate): not a usable sample
     c = copy.deepcopy(case)
     eq = [ch for ch in c['out'] if ch['cmp'] == 'eq']
     if not eq or rnd.random() < 0.25:
@@ -125,38 +127,41 @@ def run(ctx):
     ]
     ctx.build()
     # 1. model: the code-level reset discipline refines the statement (fixpoint over reachable states)
-    mc = ctx.cfg('MC_Reuse', constants={'MaxDraws': 1} if q else {'MaxDraws': 3, 'JudgeKinds': ALL_KINDS})
+    mc = ctx.cfg('MC_Reuse', constants={'MaxDraws': 1} if q else {'MaxDraws': 2, 'JudgeKinds': '{"plain", "p_io", "p_func", "csvhdr", "midfile", "exit3", "openout"}'})
     ctx.tlc('MC_Reuse', mc, timeout=1500, heap='4g')
     if not q:
-        # which clears of resetCore are load-bearing in the model (informational; the as-built code lacks "hdr")
-        need = []
-        for f in CORE:
+        # The model must be able to fail, and must agree with the code on which clears of resetCore matter:
+        # without clearing the header names (the code as built: finding F11), the exit status or the output
+        # streams TLC violates an invariant; clearing the stack pointer is redundant (nested calls restore it).
+        verdicts = {}
+        for f in ('hdr', 'status', 'outs', 'sp'):
             c = ctx.cfg('MC_Reuse', name=f'MC_Reuse_no_{f}', constants={'Clears': tla_set([x for x in CORE if x != f]), 'MaxDraws': 1})
             r = ctx.tlc('MC_Reuse', c, timeout=900, heap='4g', allow_fail=True, label=f'MC_Reuse without clearing {f}')
             if r['rc'] == 124:
                 raise MachineryError('TLC timed out on the load-bearing analysis')
-            if not r['ok']:
-                need.append(f)
-        ctx.notes.append('resetCore clears that the model needs for the property (TLC violates an invariant without them): '
-                         + ', '.join(need) + '; redundant in the model: ' + ', '.join(x for x in CORE if x not in need)
-                         + '. The code as built does not clear "hdr" (fieldNames): TLC\'s counterexample is finding F11.')
-        if 'hdr' not in need or 'status' not in need or 'outs' not in need:
-            raise MachineryError('model lost its teeth: clearing hdr/status/outs is no longer needed for the invariants')
+            verdicts[f] = not r['ok']
+        ctx.notes.append('resetCore clears in the model: without "hdr" (the code as built, finding F11), "status" or "outs" TLC '
+                         'violates an invariant; without "sp" it does not (redundant): ' + str(verdicts))
+        if not (verdicts['hdr'] and verdicts['status'] and verdicts['outs']) or verdicts['sp']:
+            raise MachineryError('model lost its teeth (or gained false ones): ' + str(verdicts))
     # 2. spec -> code
     if q:
         gen = ctx.cfg('Gen_Reuse', constants={'MaxRuns': 3})
         ctx.tlc('Gen_Reuse', gen, capture='cases.ndjson', timeout=900, heap='4g')
     else:
-        gen = ctx.cfg('Gen_Reuse', constants={'MaxRuns': 3, 'LastKinds': ALL_KINDS, 'LastCfgs': ALL_CFGS})
+        gen = ctx.cfg('Gen_Reuse', constants={'MaxRuns': 3, 'LastCfgs': ALL_CFGS,
+                                               'LastKinds': '{"plain", "p_io", "p_func", "csvhdr", "midfile", "setglob"}'})
         ctx.tlc('Gen_Reuse', gen, capture='cases.ndjson', timeout=2400, heap='8g')
         sim = ctx.cfg('Gen_Reuse', name='Gen_Reuse_sim', constants={'MaxRuns': 6, 'LastKinds': ALL_KINDS, 'LastCfgs': ALL_CFGS,
                                                                      'ResetsAnywhere': 'TRUE'})
-        ctx.tlc('Gen_Reuse', sim, capture='cases.ndjson', simulate=6000, depth=7, workers=1, timeout=900)
+        # in simulation mode TLC evaluates (and so exports) every successor of every state on a walk: one walk of
+        # 6 runs yields ~800 histories (each prefix of the walk extended by every possible next run)
+        ctx.tlc('Gen_Reuse', sim, capture='cases.ndjson', simulate=40, depth=7, workers=1, timeout=900)
     ctx.cov['exhaustive'] = True
     ctx.replay('cases.ndjson', label='gen-reuse', min_cases=1000, corrupt=corrupt)
     gate_fresh_model(ctx)
     # 3. code -> spec
-    ntr = 100 if q else 1500
+    ntr = 100 if q else 1000
     ctx.harness(['C14', 'record', '-seed', str(ctx.seed), '-n', str(ntr), '-out', ctx.path('trace.ndjson')])
     rejects = ctx.validate_traces('Trace_Reuse', 'Trace_Reuse', 'trace.ndjson', label='trace-reuse', timeout=1500,
                                   corrupt_event=corrupt_event, selftest=False)
